@@ -185,7 +185,7 @@ def rule_auth_value(ctx):
             r.instance(writer_of=adt + '.value', function=w, ok=ok)
             if not ok:
                 r.violate(w, 'value-writer', adt.split('::')[-1] + '.value', 'ValueEntry.value is written outside its constructor (%s)' % w, where=ctx.where(w))
-    r.require_floor(2, 'map-insert sites')
+    r.require_floor(2 if ctx.has_sync else 1, 'map-insert sites')
     return r
 
 
